@@ -377,6 +377,15 @@ pub fn run_script_with<Ef: LabEffect>(ctx: Ctx<Ef>, script: Script, tx: Option<T
                     let vs = futures::future::join_all(futs).await;
                     regs.extend(vs);
                 }
+                Instr::JoinMixed { sites, handles: hs } => {
+                    let reqs: Vec<_> = sites
+                        .iter()
+                        .map(|s| ctx.request(op(*s, 0, KIND_ONCE)))
+                        .collect();
+                    let joins: Vec<_> = hs.iter().map(|h| (handles[*h].join)()).collect();
+                    let (vs, _) = futures::future::join(futures::future::join_all(reqs), futures::future::join_all(joins)).await;
+                    regs.extend(vs);
+                }
                 Instr::Select { sites } => {
                     let futs: Vec<_> = sites
                         .iter()
